@@ -434,6 +434,34 @@ def gate_opt(ctx):
               "Package::open indexes the _Validation rows in %s: a key that is not the pair of table and column name lets two different columns collide" % sorted(vkeys), o.loc(), fn=o.name, key=R + "|vkey")
 
 
+def reg_order(ctx, rule="REG-ORDER"):
+    """create_table: the new table is registered before the guard that decides whether its _Validation rows are written"""
+    prog = ctx.prog
+    ctx.rule(rule, "in create_table_with_name the `_Validation exists` test that guards the insertion of the new table's _Validation rows is evaluated after the new table has been "
+                   "registered in self.tables: Package::create builds _Validation itself through this path, and only then does the table describe itself")
+    f = prog.fn("msi::internal::package::Package::<F>::create_table_with_name")
+    S = Sym(prog, f)
+    cs = symcalls(prog, f, S)
+    dom = cfg.dominators(f)
+    reg = [b for b, n, a, t in cs if n.endswith("BTreeMap::<K, V, A>::insert") and a and a[0].endswith("p1.tables")]
+    n = 0
+    for b, nme, a, t in cs:
+        if not nme.endswith("Package::<F>::insert_rows"):
+            continue
+        gs = [g for (e, tr, g) in S.bool_facts_at(b) if tr is True and re.search(r"contains_key\(&\*p1\.tables,&\*s:'_Validation'\)", e)]
+        if not gs:
+            continue
+        n += 1
+        # the guard's contains_key call: the call block whose result the guard block switches on
+        cblocks = [cb for cb, cn, ca, ct in cs if cn.endswith("contains_key") and len(ca) > 1 and "'_Validation'" in ca[1] and cb in dom[gs[-1]] | {gs[-1]}]
+        cb = max(cblocks, key=lambda x: len(dom[x])) if cblocks else None
+        ok = cb is not None and any(r in dom[cb] for r in reg)
+        ctx.check(ok, rule, "the _Validation guard sees the new table", "tables.insert dominates the guard", "create_table_with_name tests `tables.contains_key(\"_Validation\")` for the "
+                  "insertion of the new table's _Validation rows before the new table is registered: when the table being created IS _Validation (Package::create), its own ten "
+                  "rows are never written and it reopens without ranges, categories and enumerations", f.loc(t["sp"]), fn=f.name, key=rule)
+    ctx.floor(rule, "guarded _Validation insertions in create_table_with_name", n, 1)
+
+
 def ins1(ctx, fns=(OPEN, "msi::internal::query::Insert::exec"), floor=6):
     prog = ctx.prog
     R = "INS-1"
